@@ -12,7 +12,7 @@ import (
 // runSessions: the session stream of the run (see sessgen.go for the generator).
 func runSessions(r *core.Run) {
 	rd := r.Rand
-	n := r.N(300, 6000)
+	n := r.N(300, 3000)
 	if v := os.Getenv("VERIF_C16_SESSIONS"); v != "" {
 		n = core.Atoi(v)
 	}
@@ -82,8 +82,16 @@ func checkSession(r *core.Run, sc *Script, meta *sessMeta) int {
 		checkSite(r, sc, s)
 	}
 	if o.Panic != "" {
+		// a proxy goroutine panicked: acra-server's recoverConnection drops the session. The property is C14's
+		// ("no input can crash a handler"); it is judged here too because these sessions are what reaches the code.
+		last := ""
+		for i, st := range o.Steps {
+			if st != "skipped" && i < len(sc.Steps) && sc.Steps[i].SQL != "" {
+				last = sc.Steps[i].SQL
+			}
+		}
 		r.Tag("session-panic")
-		r.Note("C16 session: proxy panic %q", trunc(o.Panic))
+		r.Fail(PanicClass(o), fmt.Sprintf("a proxy goroutine of a real %s session (enc=%s keys=%s censor=%s) panicked with %q in %s; last statement sent: %q", sc.Dialect, sc.Enc, sc.Keys, sc.Censor, trunc(o.Panic), o.PanicSite, trunc(last)))
 	}
 	seen := map[string]bool{}
 	for _, h := range o.Hits {
@@ -192,5 +200,32 @@ func sessionCorpus() []*Script {
 	s.Steps = []Step{{Kind: "parse", Name: "c2", SQL: "select a from t where b = 'unterminated Zq9x00007z"}}
 	s.Needles = []Needle{lit(0, "Zq9x00007z")}
 	out = append(out, s)
+	// 8: proxy-goroutine-panic (C14, repo patch 83): rows arrive while an INSERT without RETURNING is pending – the settings
+	// extractor (a query encryptor without data encryptor) went on to encrypt the literal: nil pointer dereference
+	s = base("pg", "warn", "mixed1")
+	s.Steps = []Step{{Kind: "simple", SQL: "insert into t (id, a) values (70300008, 'Zq1x00008z')", Rows: [][]string{{core.Hex([]byte("Zq1x00008z"))}}}}
+	s.Needles = []Needle{lit(0, "Zq1x00008z"), lit(0, "70300008")}
+	out = append(out, s)
+	// 9: proxy-goroutine-panic (C14, repo patch 84): a searchable comparison inside a sub-select is listed twice, the second
+	// time already rewritten: unchecked type assertion in MySQL HashQuery.OnQuery
+	s = base("my", "warn", "mixed2")
+	s.Steps = []Step{{Kind: "simple", SQL: "select a from t where c = 'Zq0x00009z' and d in (select e from u where f = 'Zq2x00009z')"}}
+	s.Needles = []Needle{lit(0, "Zq0x00009z"), lit(0, "Zq2x00009z")}
+	out = append(out, s)
 	return out
+}
+
+// PanicClass: proxy-goroutine-panic:<function of /repo that panicked>
+func PanicClass(o *Outcome) string {
+	site := o.PanicSite
+	if site == "" {
+		site = "unknown"
+	}
+	return "proxy-goroutine-panic:" + site
+}
+
+// PanicCorpus: the sessions of the corpus that made a proxy goroutine panic (C14 runs them too).
+func PanicCorpus() []*Script {
+	all := sessionCorpus()
+	return all[len(all)-2:]
 }
